@@ -301,6 +301,24 @@ func c09RuneSweep(st *vlib.Stats) string {
 			}
 		}
 	}
+	// tokens made of one multi-byte character repeated: many bytes, few characters
+	// (and the other way round) - in places where the token is refused
+	if Cfg.Shard == 0 {
+		for _, r := range []string{"日", "😀", "é", "ɐ", "a", "\u200d"} {
+			for n := 1; n <= 48; n++ {
+				tok := strings.Repeat(r, n)
+				for _, in := range []string{tok, "SELECT * FROM '" + tok + "'", "INSERT INTO t VALUES (1 '" + tok + "')", "SELECT " + tok + " " + tok + " " + tok, "SELECT a FROM t WHERE " + tok + " '" + tok + "'", "CREATE TABLE " + tok + " (" + tok + " " + tok + ")", "USE '" + tok + "'"} {
+					c := c09Case{Input: []byte(in), Origin: "exhaustive:runes"}
+					if msg := c09Run(c, st); msg != "" {
+						b, _ := json.Marshal(c)
+						st.Fail(msg, b)
+						return msg
+					}
+					count++
+				}
+			}
+		}
+	}
 	st.AddExtra("exhaustive_rune_sequences", count)
 	return ""
 }
